@@ -26,7 +26,7 @@ def lay(rng):
 def gen_cases(ctx):
     rng = ctx.rng
     th = ctx.tier == "thorough"
-    n = 4000 if th else 420
+    n = 4000 if th else 420 * ctx.scale
     cases = []
     for _ in range(n):
         kind = rng.choice([1, 2])
